@@ -28,6 +28,71 @@ def sm_coq(o):
     raise KeyError(n)
 
 
+def auth_coq(o):
+    n = o[0]
+    if n == "gensession":
+        return "ASession"
+    if n == "srv_accept":
+        return "(AAccept %d)" % o[1]
+    if n == "flags":
+        return "AFlags"
+    if n == "srv_data":
+        return "AData"
+    return "(ABase %s)" % sm_coq(o)
+
+
+def gen_auth(rng, nops):
+    """connections, new sessions, accepts made for the current / an earlier / no session handled at any moment (also
+    after the connection they were sent on was torn down: the handler goroutine lags), data, flag observations"""
+    ops, running, nsess = [], False, 0
+    while len(ops) < nops:
+        k = rng.weighted([("connect", 16), ("drop", 14), ("accept", 24), ("flags", 12), ("data", 18), ("session", 8), ("send", 4)])
+        if k == "connect":
+            if running:
+                continue
+            # connect(): a fresh session, then the connection (sometimes the old session is kept: a dial that reuses it)
+            if nsess == 0 or rng.chance(4, 5):
+                ops.append(["gensession"])
+                nsess += 1
+            ops.append(["connect"])
+            running = True
+        elif k == "drop":
+            if not running:
+                continue
+            ops.append(["drop"])
+            running = False
+        elif k == "accept":
+            ops.append(["srv_accept", rng.weighted([(nsess, 6), (max(nsess - 1, 0), 3), (0, 2)])])
+        elif k == "flags":
+            ops.append(["flags"])
+        elif k == "data":
+            ops.append(["srv_data"])
+        elif k == "session":
+            if running:
+                continue
+            ops.append(["gensession"])
+            nsess += 1
+        else:
+            ops.append(["send", 2 * len(ops) + 1])
+    if running:
+        ops.append(["drop"])
+    ops.append(["flags"])
+    return {"cfg": {}, "ops": ops}
+
+
+AUTH_SCRIPTED = [
+    # the accept of connection 1 handled after its tear-down, within the retry delay (session not yet replaced): the next
+    # connection must not start accepted and its peer's data must not reach the handlers
+    [["gensession"], ["connect"], ["drop"], ["srv_accept", 1], ["flags"], ["gensession"], ["connect"], ["flags"], ["srv_data"],
+     ["srv_accept", 1], ["flags"], ["srv_data"], ["srv_accept", 2], ["srv_data"], ["drop"], ["flags"]],
+    # the same with the session kept for the next dial
+    [["gensession"], ["connect"], ["srv_accept", 1], ["srv_data"], ["drop"], ["srv_accept", 1], ["connect"], ["flags"], ["srv_data"],
+     ["drop"], ["flags"]],
+    [["gensession"], ["connect"], ["srv_accept", 0], ["flags"], ["srv_data"], ["srv_accept", 1], ["srv_data"], ["drop"], ["connect"],
+     ["srv_data"], ["flags"], ["drop"]],
+]
+
+
 def gen_sm(rng, nops):
     ops = []
     running = False
@@ -70,7 +135,8 @@ def gen_sm(rng, nops):
 
 def sm_suite(tier, rng, replay):
     cases = []
-    if replay and replay.get("suite") == "sendmachine" and replay.get("cfg", {}).get("hs_timeout_ms") is None:
+    is_auth = bool(replay) and any(o[0] in ("gensession", "srv_accept", "flags", "srv_data") for o in replay.get("ops", []))
+    if replay and replay.get("suite") == "sendmachine" and replay.get("cfg", {}).get("hs_timeout_ms") is None and not is_auth:
         cases.append({"cfg": replay["cfg"], "ops": replay["ops"], "origin": "replay"})
     elif not replay:
         d = os.path.join(vlib.VERIF, "corpus", "C18sm")
@@ -87,7 +153,7 @@ def sm_suite(tier, rng, replay):
         c["coq_ops"] = [sm_coq(o) for o in c["ops"]]
     groups = [{"key": "sendmachine", "optype": "sop", "cases": cases, "model": "cmp_run srun",
                "monitors": {"c18sm": "sm_monitor"}}]
-    if not replay or replay.get("cfg", {}).get("hs_timeout_ms") is not None:
+    if not replay or (replay.get("cfg", {}).get("hs_timeout_ms") is not None and not is_auth):
         # a handshake time-out configured as zero / very short: the sender's wait for the handshake ends at once;
         # whatever the connection then does, nothing but handshake-type messages may be written and nothing may be
         # acknowledged without having been written.  Monitor only (the model has no zero-length wait).
@@ -102,11 +168,24 @@ def sm_suite(tier, rng, replay):
         for c in zcases:
             c["coq_ops"] = [sm_coq(o) for o in c["ops"]]
         groups.append({"key": "sendmachine-hs0", "optype": "sop", "cases": zcases, "monitors": {"c18sm": "sm_monitor"}})
+    if not replay or is_auth:
+        acases = []
+        if replay:
+            acases.append({"cfg": replay["cfg"], "ops": replay["ops"], "origin": "replay"})
+        else:
+            acases += [{"cfg": {}, "ops": ops, "origin": "scripted-late-accept"} for ops in AUTH_SCRIPTED]
+            for i in range(40 if tier == "quick" else 500):
+                r = rng.fork(18900 + i)
+                acases.append(gen_auth(r, r.range(6, 18)))
+        for c in acases:
+            c["coq_ops"] = [auth_coq(o) for o in c["ops"]]
+        groups.append({"key": "sendmachine-auth", "optype": "aop", "cases": acases, "model": "cmp_run arun",
+                       "monitors": {"c18auth": "auth_monitor"}})
     for g in groups:
         for c in g["cases"]:
             if "coq_ops" not in c:
                 c["coq_ops"] = [sm_coq(o) for o in c["ops"]]
-    return Suite("sendmachine", "sendmachine", ["From V.model Require Import SendMachine."], groups)
+    return Suite("sendmachine", "sendmachine", ["From V.model Require Import SendMachine SendAuth."], groups)
 
 
 def suites(tier, rng, replay):
